@@ -1,0 +1,12 @@
+//go:build verif
+
+package ics20
+
+// Contracts for the deductive checker in /verif (comment-only; compiled only with -tags verif). Loaded (tag c05ra) only together with
+// the contract of Allowance (tag c16a), by the C05-run-ics20 part.
+
+/*@
+// the allowance query consumes SDK gas like every other method (its contract - tag c16a - is verified in the C16-allowance part)
+extend func (Precompile).Allowance
+    modifies gasw
+@*/
